@@ -5,7 +5,7 @@ sys.path.insert(0, '/verif/rules'); sys.path.insert(0, '/verif/mutants')
 import core, selftest
 from facts import build_facts
 from concurrent.futures import ProcessPoolExecutor
-PIDS = ['C%02d' % i for i in range(2, 17)]
+PIDS = ['C%02d' % i for i in range(1, 17)]
 root = sys.argv[1]
 F = build_facts()
 base = {}
